@@ -73,15 +73,19 @@ def is_zero(e, seed=0, points=8):
     e = sp.sympify(e)
     if e == 0:
         return True, "structural", None
-    try:
-        d = sp.cancel(sp.together(sp.expand_complex(e) if e.has(sp.I) else e))
-        if d == 0:
-            return True, "cancel", None
-        d = sp.simplify(d)
-        if d == 0:
-            return True, "simplify", None
-    except Exception:
-        d = e
+    d = e
+    size = sp.count_ops(e)
+    if size < 250:
+        try:
+            d = sp.cancel(sp.together(sp.expand_complex(e) if e.has(sp.I) else e))
+            if d == 0:
+                return True, "cancel", None
+            if size < 120:
+                d = sp.simplify(d)
+                if d == 0:
+                    return True, "simplify", None
+        except Exception:
+            d = e
     # evaluation of the expression tree at random rational points (Schwartz-Zippel)
     rng = random.Random(seed * 7919 + 13)
     syms = sorted(d.free_symbols, key=str)
@@ -93,10 +97,13 @@ def is_zero(e, seed=0, points=8):
         syms = sorted(d.free_symbols, key=str)
     bad = None
     agree = 0
+    if d.has(sp.Max, sp.Min, sp.Piecewise, sp.Abs):
+        points = max(points, 24)
     for _ in range(points):
         pt = {}
         for s in syms:
-            v = sp.Rational(rng.randint(1, 997), rng.randint(1, 97))
+            # log-uniform magnitudes so that clipped regions (max(n, 1), thresholds) are reached
+            v = sp.Rational(rng.randint(1, 997), rng.randint(1, 97)) * sp.Integer(10) ** rng.randint(-4, 2)
             if s.is_positive is not True and s.is_nonnegative is not True and rng.random() < 0.3:
                 v = -v
             if s.is_integer:
@@ -211,3 +218,13 @@ def nonneg(e):
     if isinstance(e, sp.Piecewise):
         return all(nonneg(a) for a, _ in e.args)
     return False
+
+
+def main_arm(e, nonzero=()):
+    """The expression of the single arm of *e* that lies inside the domain
+    (arms stating that a *nonzero* quantity vanishes are dropped)."""
+    e = sp.sympify(e)
+    arms = [(ex, cs) for ex, cs in _arms(e) if not (nonzero and _outside(cs, nonzero))]
+    if len(arms) != 1:
+        raise AnalysisError(f"expected one in-domain arm, found {len(arms)} in {str(e)[:100]}")
+    return arms[0][0]
